@@ -42,13 +42,94 @@ class C11(EngineProp):
                         'partial': rng.randint(0, 40), 'rr': rng.randint(0, 2), 'streams': rng.randint(0, 2), 'incoming': rng.randint(0, 2),
                         'producers': rng.choice([0, 1, 1, 2]), 'producer_kind': rng.choice(['gen', 'agen']), 'producer_when': rng.choice(['early', 'same-read']),
                         'late_rr': rng.choice([0, 0, 1, 2]), 'late_streams': rng.choice([0, 0, 1])})
+        # close() at any moment - also while a reconnect is under way (the reconnect listener is suspended closing the old transport or obtaining
+        # the next one): after close() has returned the endpoint sends nothing, keepalives included, and none of its tasks is left
+        for _ in range(60 if tier == 'quick' else 1500):
+            out.append({'mode': 'rcclose', 'role': 'client', 'profile': 'reconnect-then-close', 'close_ticks': rng.choice([0, 1, 3, 8]), 'provider_ticks': rng.choice([0, 1, 4]),
+                        'wait': rng.choice([0, 1, 2, 5, 12]), 'pending': rng.randint(0, 2), 'cause': rng.choice(['healthy', 'eof'])})
         return out
 
     def run_impl(self, case):
         if case.get('mode') == 'tcp':
             from harness import detloop
             return detloop.run(self._tcp_cut, case)
+        if case.get('mode') == 'rcclose':
+            from harness import detloop
+            return detloop.run(self._rcclose, case)
         return super().run_impl(case)
+
+    async def _rcclose(self, loop, case):
+        import asyncio
+        from harness import clientrun, simnet
+        from rsocket.payload import Payload
+        R = clientrun.ClientRun(loop, n_transports=3, ka_ms=40, life_ms=100_000_000)
+        R.provider_ticks = case['provider_ticks']
+        for t in R.transports:
+            oc = t.close
+
+            async def slow_close(oc=oc):
+                for _ in range(case['close_ticks']):
+                    await asyncio.sleep(0)
+                await oc()
+            t.close = slow_close
+        c = R.build()
+        await c.connect()
+        await loop.settle()
+        futs = [c.request_response(Payload(b'p%d' % i)) for i in range(case['pending'])]
+        await loop.settle()
+        if case['cause'] == 'eof':
+            R.transports[0].deliver(simnet.EOF_MARK)
+            await loop.settle()
+        rt = asyncio.ensure_future(c.reconnect())
+        for _ in range(case['wait']):
+            await asyncio.sleep(0)
+        ct = asyncio.ensure_future(c.close())
+        for _ in range(3000):
+            if ct.done():
+                break
+            await asyncio.sleep(0)
+        if not ct.done():
+            chain, co = [], ct.get_coro()
+            while co is not None and len(chain) < 12:
+                fr = getattr(co, 'cr_frame', None) or getattr(co, 'gi_frame', None)
+                if fr is not None:
+                    chain.append('%s:%d' % (fr.f_code.co_name, fr.f_lineno))
+                nxt = getattr(co, 'cr_await', None) or getattr(co, 'gi_yieldfrom', None)
+                if isinstance(nxt, asyncio.Task):
+                    chain.append('<task %s>' % getattr(nxt.get_coro(), '__name__', '?'))
+                    co = nxt.get_coro()
+                else:
+                    co = nxt if hasattr(nxt, 'cr_frame') or hasattr(nxt, 'gi_frame') else None
+            close_result = 'hung:' + ' > '.join(chain)
+            # close() was called and has not returned: what the endpoint does meanwhile is what counts
+            mark = [len(t.sent) for t in R.transports]
+            await loop.advance(400)
+            await loop.settle()
+            during = [[i, e[1][:40]] for i, t in enumerate(R.transports) for e in t.sent[mark[i]:]]
+            close_result += ' ; frames written in the following 400 ms: %s' % during[:6]
+            ct.cancel()
+        elif ct.cancelled():
+            close_result = 'cancelled'
+        elif ct.exception() is not None:
+            close_result = 'raised:' + type(ct.exception()).__name__ + ':' + str(ct.exception())[:80]
+        else:
+            close_result = 'returned'
+        sent_at_close = [len(t.sent) for t in R.transports]
+        await loop.settle()
+        await loop.advance(400)          # ten keepalive periods of silence
+        await loop.settle()
+        after = [[i, e[1][:40]] for i, t in enumerate(R.transports) for e in t.sent[sent_at_close[i]:]]
+        tasks = [n for n in ('_sender_task', '_receiver_task', '_keepalive_task', '_reconnect_task') if getattr(c, n, None) is not None and not getattr(c, n).done()]
+        res = {'close': close_result, 'sent_after_close': after, 'tasks_alive': tasks, 'closes': R.closes,
+               'pending': ['pending' if not f.done() else ('cancelled' if f.cancelled() else ('failed' if f.exception() is not None else 'result')) for f in futs],
+               'open_transports': [i for i, t in enumerate(R.transports) if i <= R.current and not t.closed]}
+        if not rt.done():
+            rt.cancel()
+        for n in ('_sender_task', '_receiver_task', '_keepalive_task', '_reconnect_task'):
+            tk = getattr(c, n, None)
+            if tk is not None and not tk.done():
+                tk.cancel()
+        return res
 
     async def _tcp_cut(self, loop, case):
         import asyncio
@@ -195,16 +276,19 @@ class C11(EngineProp):
         return res
 
     def model_lines(self, case, obs):
-        if case.get('mode') == 'tcp':
+        if case.get('mode') in ('tcp', 'rcclose'):
             return []
         return super().model_lines(case, obs)
 
     def compare(self, case, obs, answers):
-        if case.get('mode') == 'tcp':
+        if case.get('mode') in ('tcp', 'rcclose'):
             return None
         return super().compare(case, obs, answers)
 
     def stats(self, case, obs):
+        if case.get('mode') == 'rcclose':
+            yield 'mode=reconnect-then-close'
+            return
         if case.get('mode') == 'tcp':
             yield 'mode=tcp'
             yield 'cut=' + case['cut']
@@ -213,6 +297,10 @@ class C11(EngineProp):
         yield from super().stats(case, obs)
 
     def shrink_candidates(self, case):
+        if case.get('mode') == 'rcclose':
+            if case['pending']:
+                yield dict(case, pending=case['pending'] - 1)
+            return
         if case.get('mode') == 'tcp':
             for k in ('rr', 'streams', 'incoming', 'partial'):
                 if case[k]:
@@ -270,6 +358,19 @@ class C11(EngineProp):
     def oracle(self, case, obs):
         if case.get('mode') == 'tcp':
             return self._tcp_oracle(case, obs)
+        if case.get('mode') == 'rcclose':
+            fails = []
+            what = 'reconnect() (%s connection), %d loop iterations later close() [transport.close() takes %d iterations, the provider %d]' % (case['cause'], case['wait'], case['close_ticks'], case['provider_ticks'])
+            if obs['close'].startswith('hung'):
+                # (an exception out of close() is not judged: the property does not say how close() itself ends, only what the endpoint does)
+                fails.append({'signature': 'close-never-completes:reconnect-under-way', 'what': '%s: close() never returns and the endpoint goes on: %s' % (what, obs['close'])})
+            if obs['sent_after_close']:
+                fails.append({'signature': 'sends-after-close:reconnect-under-way', 'what': '%s: after close() had returned the client wrote %s' % (what, obs['sent_after_close'][:6])})
+            if obs['tasks_alive']:
+                fails.append({'signature': 'tasks-left-after-close:reconnect-under-way', 'what': '%s: still running after close(): %s' % (what, obs['tasks_alive'])})
+            if any(p == 'pending' for p in obs['pending']):
+                fails.append({'signature': 'request-pending-after-close:reconnect-under-way', 'what': '%s: requests %s' % (what, obs['pending'])})
+            return fails
         fails = []
         steps = obs['steps']
         lost = [i for i, (m, _) in enumerate(steps) if m in ('LOST', 'STOP')]
@@ -336,6 +437,8 @@ class C11(EngineProp):
 
     def nontrivial(self, case, obs):
         import json
+        if case.get('mode') == 'rcclose':
+            return json.dumps(case, sort_keys=True)
         if case.get('mode') == 'tcp':
             return json.dumps(case, sort_keys=True) if (case['rr'] or case['streams'] or case['incoming']) else None
         steps = obs['steps']
